@@ -1,4 +1,6 @@
 from driver import Leg
+import os
+LOCKORDER_CASES = 1    # F53 (repaired): the leg is a fixed witness now
 
 _SITES = ['tpool_before_handback', 'tpool_after_dispatch', 'tpool_unregister_before_wait', 'tpool_unregister_after_wait',
           'tpool_before_shutdown', 'thread_send_after_enqueue', 'thread_wait_after_drain', 'thread_wait_before_block',
@@ -26,6 +28,12 @@ _MIN = {                                              # about a quarter of what 
     'single_placements_with_delays': 1000,
     'cases_jitter_only': 20, 'cases_no_delay': 20, 'cases_pair_placement': 20, 'cases_triple_placement': 20,
     'distinct_order_signatures': 1500,
+    'shutdown_while_unregister_blocked': 150,         # pool shut down (global flush) underneath threads blocked in SetThreadPool(NULL) (~400 cases per leg)
+    'waiters_parked_at_shutdown': 300,                # ... unregistering threads that had passed MVH_POOL_UNREGISTER_BEFORE_WAIT at that moment
+    'shutdown_waiter_client_being_handled': 200, 'shutdown_waiter_client_with_deferred_messages': 150, 'shutdown_waiter_client_pending_only': 40,
+    'shutdown_gate_opened_inside_shutdown': 80,       # handlers released after _shuttingDown was set: only Shutdown() itself can wake the waiters
+    'shutdown_gate_opened_just_before': 40,
+    'shutdown_cases_with_extra_placement': 50,
 }
 for _s in _SITES:
     _MIN['hits_' + _s] = 500
@@ -44,7 +52,9 @@ SPEC = dict(
     rule=("one case = one ThreadPool lifetime under real threads: pool of 1-6 threads, 1-10 IThreadPoolClient objects (some registered late), "
           "1-4 submitter threads (burst / paced / hot-client styles), 0-2 registrar threads that unregister and re-register clients when the "
           "submitters reach random progress marks or when a handler of that client (running / just returning) wakes them, handlers that yield, dawdle or submit further Messages to their own or another client "
-          "(chains up to depth 3, also during an unregister wait), pool destroyed after unregistering all / some / none of the clients.  "
+          "(chains up to depth 3, also during an unregister wait), pool destroyed after unregistering all / some / none of the clients, or (1 case in 5) shut down through "
+          "AbstractObjectRecycler::GlobalFlushAllCachedObjects() underneath 1-5 threads that are blocked in SetThreadPool(NULL) because their clients' Messages "
+          "(being handled by a parked handler / deferred behind it / pending with every pool thread parked) cannot complete; every such call must return.  "
           "Submission order = per-client ticket taken under a harness lock held across SendMessageToThreadPool.  One delay placement per case "
           "(13 site x role pairs x yield/sleep/spin, round-robin over the case index; plus jitter-only, no-delay, random pair and triple cases).  "
           "Judged per case: every accepted Message of a client that was unregistered is handled exactly once; per client handler order == ticket "
@@ -55,13 +65,20 @@ SPEC = dict(
           "distinct = distinct interleaving signatures (order in which threads passed the hooked sites)"),
     assumptions=['the IThreadPoolClient object itself is not thread-safe: calls on one client are serialised by the harness (submissions under the ticket lock; '
                  'while another thread is inside SetThreadPool(NULL) only the client\'s own handler goes on submitting); the pool is not destroyed while '
-                 'other threads are inside its API',
+                 'other threads are inside its API; a pool SHUTDOWN (global flush) may overlap blocked unregistrations, but only ones that already passed the '
+                 'unlocked read of IThreadPoolClient::_threadPool in SetThreadPool() (they passed MVH_POOL_UNREGISTER_BEFORE_WAIT), and the pool object is '
+                 'destroyed only after those threads were joined',
                  'Messages still queued for clients that are registered when the pool is destroyed are dropped by design: for those clients the rule is '
-                 '"a prefix of the ticket order, each at most once" (counted as unspecified_dropped_at_pool_destruction)',
+                 '"a prefix of the ticket order, each at most once" (counted as unspecified_dropped_at_pool_destruction); the same holds for clients whose '
+                 'unregistration was released by a pool shutdown',
                  'real-thread stress with delay bounding samples schedules, it does not enumerate them',
                  'g++ 12 TSan / ASan report what they claim to report; /proc/<pid>/task/*/syscall shows untimed waits (deadlock proof)'],
     legs=[
         Leg('regress', 'h_threadpool', 'tsan', opts={'mode': 'regress'}, quick=1, thorough=1, workers=1, min_cases=1),
+        # Witness of a real finding of this harness (lock-order inversion ThreadPool::_poolLock <-> global muscle lock: the first thread start of a
+        # process constructs a function-static ObjectPool under _poolLock; GlobalFlushAllCachedObjects() calls ThreadPool::Shutdown() under the global
+        # lock).  On an affected tree this leg ends in a proved deadlock, key 'lockorder|deadlock'.  Repaired in /repo (F53, 8c847e1): the leg is a fixed witness.
+        Leg('lockorder', 'h_threadpool', 'asan', opts={'mode': 'lockorder'}, quick=LOCKORDER_CASES, thorough=LOCKORDER_CASES, workers=1, min_cases=1),
         Leg('tsan', 'h_threadpool', 'tsan', opts={'mode': 'stress'}, quick=2000, thorough=100000, workers=16),
         Leg('asan', 'h_threadpool', 'asan', opts={'mode': 'stress'}, quick=2000, thorough=100000, workers=16, leaks=True),
     ],
